@@ -611,7 +611,7 @@ def codec_correspondence(ck, scenarios, results, proved):
         terms.append(f"run_peewee_ts {fc.coq_z(ts)} ++ run_peewee_dur {fc.coq_z(dur)} ++ "
                      f"enc_res enc_Z (peewee_dur_dec {fc.coq_float(dcell)})")
     try:
-        outs = fc.run_cases("C01", IMPORTS, terms, tag="codec")
+        outs = fc.run_cases("C01", IMPORTS, terms, tag="codec%d" % os.getpid())   # per-process dir: concurrent runs
     except Exception as ex:  # noqa: BLE001
         ck.broken.append("in-Coq evaluation of the codec cases failed: " + str(ex)[:400])
         return
